@@ -389,6 +389,28 @@ fn main() {
             }
         }
     }
+    // ---- 8. unbiased draw at a strongly skewed information set (per-EDGE frequencies vs weights)
+    {
+        let n = if a.thorough() { 40000 } else { 6000 };
+        let epochs: Vec<usize> = (0..n).collect();
+        let (k, weights, ans) = root_scenario(&epochs, false);
+        let mut hist = vec![0u64; weights.len()];
+        for x in ans.iter().flatten() { if *x < hist.len() { hist[*x] += 1; } }
+        run.evaluations += n as u64;
+        run.spec_checked += 1;
+        let total: f64 = weights.iter().map(|w| *w as f64).sum();
+        for (i, w) in weights.iter().enumerate() {
+            let p = *w as f64 / total;
+            let mean = n as f64 * p;
+            let sigma = (n as f64 * p * (1.0 - p)).sqrt().max(1.0);
+            if (hist[i] as f64 - mean).abs() > 6.0 * sigma {
+                run.fail("choice-biased", &format!("skewed root bucket {k}, weights {:?}, epochs 0..{n}", weights),
+                    &format!("edge {i} (weight {:.4}) chosen about {mean:.0} times", p), &format!("{} times (all edges: {:?})", hist[i], hist));
+                break;
+            }
+        }
+        run.count("skewed-root-frequency-test");
+    }
     // ---- 4. Layer::init twice / threads / rayon pools
     let npoints = if a.thorough() { 400 } else { 180 };
     for rep in 0..(if a.thorough() { 6 } else { 2 }) {
